@@ -67,3 +67,12 @@ chk("C12", "static analysis: exact byte classes from MIR branch conditions, recu
     "lengths; the 13 whole-string wrappers return Ok only when the parser succeeded with an empty remainder. Symbolic in the "
     "input, so every string and every width is covered.",
     "Trusted: rustc MIR; Horner recurrence is checked as the one-iteration relation (induction over digits is the written step).")
+chk("C09", "static analysis: per-type MIR step tables, one-step iterator decision tables, forward/reverse isomorphism",
+    "increment/decrement are decided per Step type (12 integer arms + char): finished flags = start>end / start>=end, next = "
+    "start+1 / end-1 with the overflow flag of that very operation, char arm with the D7FF<->E000 jump and 10FFFF/0 overflow; "
+    "the next/next_back of RangeIter, RangeInclusiveIter, RangeFromIter are compared as one-step tables (yielded value, new "
+    "(start,end), the (MAX,MIN) exhausted encoding) with std's range step relation; the Rev types must be the forward types "
+    "stepping from the other end; MIN_VAL/MAX_VAL of all 13 types; const_into_iter field mapping. Symbolic in the bounds, so "
+    "all pairs of every width are covered.",
+    "Trusted: rustc MIR. History equivalence follows from the one-step relation by the simulation "
+    "exhausted <=> (start,end)=(MAX,MIN) (written, DESIGN.md App. C); chr::from_u32 on the produced scalars is C07.")
